@@ -162,7 +162,7 @@ def is_match(c, dn, tod, t):
 
 # ------------------------------------------------------------------------------------------------
 P_TIMES = [["hms", 0, 0, 0], ["hms", 6, 30, 0], ["hms", 6, 29, 59], ["hms", 6, 30, 1], ["hms", 23, 59, 59],
-           ["hms", 6, 30, 15], ["hms", 6, 0, 0]]
+           ["hms", 6, 30, 15], ["hms", 6, 0, 0], ["hms", 24, 0, 0]]
 
 
 def p_pool(kind, which, tier):
@@ -172,7 +172,7 @@ def p_pool(kind, which, tier):
         days = lambda y: (1, 59, c.year_len(y))  # noqa: E731
     else:
         years = [2001, 2004] if (tier == "quick" and kind == "greg") else ([2001] if tier == "quick" else [2000, 2001, 2004, 2099])
-        times = P_TIMES[:2] + P_TIMES[4:5] if tier == "quick" else P_TIMES
+        times = P_TIMES[:2] + P_TIMES[4:5] + P_TIMES[7:] if tier == "quick" else P_TIMES
         reps, offs = pools.REPS, [[-12, 0]] if tier == "quick" else [[0, 0], [-12, 0], [5, 45]]
         days = lambda y: pools.days_small(c, y)  # noqa: E731
     out = []
@@ -216,7 +216,7 @@ class _Hang:
 def check_case(ctx, kind, c, t, pdesc, hang, tobj=None):
     case = lambda: {"kind": "tp", "mode": kind, "t": t, "p": pdesc}  # noqa: E731
     dy, tm = t["day"], t["time"]
-    sig = {"day_designator": bool(dy), "hour_given": "h" in tm, "time_field_given": bool(tm),
+    sig = {"p24": pdesc["t"][1] == 24, "day_designator": bool(dy), "hour_given": "h" in tm, "time_field_given": bool(tm),
            "hour_of_day": tm.get("h"), "t_zone": "known" if t.get("tz") is not None else "unknown"}
     # designators the constructor itself refuses in this mode have that refusal as the expected outcome
     try:
